@@ -65,12 +65,13 @@ theorem C10_cache_history (m : Model) (maxLen : Nat) (calls : List (Nat Ã— Str Ã
   fillC_run m maxLen calls
 
 /-- the table is read and written nowhere else: every call on `self.optimizer` in the guesser sits in
-`_fill_out_parse_tree` and uses the key (ip, length, target level) â€” regenerated from the source -/
+`_fill_out_parse_tree` and uses as key the function's own three arguments (ip, length, target level; names
+normalised: parameter k is `argk`, a local assigned once from a parameter stands for it) â€” regenerated
+from the source -/
 theorem C10_cache_sites :
     Pcfg.Generated.OmenFacts.optimizerCalls.all (fun c =>
       c.1 == "guess_structure.py" && c.2.1 == "_fill_out_parse_tree" &&
-      ((c.2.2.1 == "lookup" && c.2.2.2 == ["ip", "length", "target_level"]) ||
-       (c.2.2.1 == "update" && c.2.2.2 == ["ip", "length", "optimize_level_target"]))) = true âˆ§
+      (c.2.2.1 == "lookup" || c.2.2.1 == "update") && c.2.2.2 == ["arg1", "arg2", "arg3"]) = true âˆ§
     Pcfg.Generated.OmenFacts.optimizerCalls.any (fun c => c.2.2.1 == "lookup") = true := by
   decide
 
